@@ -63,7 +63,7 @@ CHECKS = {
          "the pointer-receiver counter-model (computed methods persisting on the filter) is refuted by TLC",
          "Preflight grant is defined in Layer A from configured methods or the methods routable at the URL; each response of a request "
          "sequence on ONE real filter instance is judged against its own URL.", "6 C09",
-         "Trusted as for C08; Access-Control-Request-Method is upper case; routable methods come from the harness's fixed route table."),
+         "Trusted as for C08; routable methods come from the harness's fixed route table (incl. a nested WebService shadowing a generic route)."),
  "C06": ("TLC exhaustive model checking of MC_Dispatch (Container.dispatch as a state machine, one action per code step; the Layer A monitor "
          "Dispatch!Step accepts every behaviour; counter-model SharedChain refuted) + replay of every configuration on the real Container "
          "(Dispatch, ServeHTTP, HandleWithFilter; two requests in sequence) + TLC trace validation (DispatchTrace, clauses C06.*) of event logs "
@@ -77,7 +77,8 @@ CHECKS = {
          "6 C07", "Trusted: TLC, Json module, net/http/httptest, compress/*; filters call ProcessFilter at most once; payload fidelity enters the specification as logged booleans."),
  "C10": ("same pipeline; every crash point of MC_Dispatch (each filter before/after passing control, the target) x recovery x encoding x entry "
          "point replayed 1:1; clauses C10.* of the monitor (recover exactly once, nothing after the panic, no leak, escape iff recovery off) plus "
-         "status / usable (probe requests equal to a never-panicked twin, Container.Add completes); counter-models DefersSwapped and "
+         "status / usable (probe requests equal to a never-panicked twin, Container.Add completes), panics below Request.ReadEntity of a gzip entity (reader ledger), "
+         "buffering filters; counter-models DefersSwapped and "
          "NoCloseOnPanic refuted by TLC",
          "Crash points are enumerated by TLC, not sampled (panic values: string, error, int, http.ErrAbortHandler); the state left behind is observed by follow-up requests and the compressor ledger.",
          "6 C10", "Trusted: TLC, Json module, net/http/httptest, compress/*; filters call ProcessFilter at most once; payload fidelity enters the specification as logged booleans."),
@@ -109,6 +110,7 @@ CHECKS = {
          "6 C12", "Trusted: TLC, the Go race detector (dynamic), one mutator goroutine; a 30 s watchdog defines deadlock."),
  "C13": ("TLC exhaustive model checking of MC_Pool (N processes x Rounds of Acquire / Close / nil / second Close on the bounded channel cache "
          "for several (N, K) incl. K = 0, and on the sync.Pool bag; invariants Exclusive / NeverBlocks / CacheBounded, liveness Completion under "
+         "weak fairness; PoolInd: Exclusive / CacheBounded inside an inductive invariant checked with Apalache, i.e. for any number of rounds; under "
          "weak fairness; legacy check-then-send release and a releasing second Close refuted) + TLC's legacy counterexample reproduced on the real "
          "cache by spin-barrier rounds + TLC trace validation (PoolTrace) of the acquire/release ledger of an instrumenting provider around the "
          "real providers under 8-64 goroutines of encoded responses, panicking handlers, hijacked connections and gzip request bodies, bodies decoded and compared, "
